@@ -52,18 +52,45 @@ Definition prop_ok_link (c : lcase) : bool :=
     consumer, the same-index one when it exists". *)
 Inductive case :=
 | KLink (c : lcase)
-| KGraph (c : C19.case).
+| KGraph (c : C19.case)
+| KMeet (variant : N) (ldata rdata : list (Z * Z)) (got : list (Z * Z * Z)).
 
 Definition forward_only (c : C19.case) : C19.case :=
   C19.Build_case (C19.c_dep c) (C19.c_blocks c)
-    (filter (fun e => Sched.e_forward e && negb (Sched.e_fragile e)) (C19.c_edges c)) (C19.c_dumps c).
+    (filter (fun e => Sched.e_forward e && negb (Sched.e_fragile e)) (C19.c_edges c)) (C19.c_dumps c) (C19.c_inter c).
+
+(** Third kind: a whole job on the real engine in which two keyed streams over one key space
+    are partitioned through two DIFFERENT group-by entry points of the API (left: group_by_count
+    / _sum / _fold / _reduce(max) / group_by+fold; right: group_by) and joined by the keyed join,
+    whose forward connections rely on equal keys having been sent to the same replica index
+    (theorem C03_equal_keys_meet: the replica is a function of the key hash only — provided
+    every entry point uses the same hash). Expected: every right element whose key occurs on
+    the left, with the left aggregate of its key. *)
+Definition meet_agg (variant : N) (vs : list Z) : Z :=
+  match variant with
+  | 0%N => Z.of_nat (length vs)
+  | 3%N => match vs with [] => 0 | v :: vs' => fold_left Z.max vs' v end
+  | _ => fold_left Z.add vs 0
+  end.
+Definition meet_expected (variant : N) (ldata rdata : list (Z * Z)) : list (Z * Z * Z) :=
+  flat_map (fun r =>
+    match map snd (filter (fun l => Z.eqb (fst l) (fst r)) ldata) with
+    | [] => []
+    | vs => [(fst r, meet_agg variant vs, snd r)]
+    end) rdata.
+Definition triple_key (t : Z * Z * Z) : Z := fst (fst t) * 1000003 + snd t.
+Definition meet_ok (variant : N) (ldata rdata : list (Z * Z)) (got : list (Z * Z * Z)) : bool :=
+  list_eqb (fun a b => Z.eqb (fst (fst a)) (fst (fst b)) && Z.eqb (snd (fst a)) (snd (fst b)) && Z.eqb (snd a) (snd b))
+           (sort_by triple_key got) (sort_by triple_key (meet_expected variant ldata rdata)).
 
 Definition corr_ok (c : case) : bool :=
-  match c with KLink x => corr_ok_link x | KGraph x => C19.corr_ok x end.
+  match c with KLink x => corr_ok_link x | KGraph x => C19.corr_ok x
+  | KMeet v l r got => meet_ok v l r got end.
 Definition prop_ok (c : case) : bool :=
   match c with
   | KLink x => prop_ok_link x
   | KGraph x => forallb (fun d => C19.links_ok (forward_only x) d) (C19.c_dumps x)
+  | KMeet v l r got => meet_ok v l r got
   end.
 
 Definition known_class (c : case) : N := 0%N.
